@@ -32,11 +32,11 @@ Print Assumptions C11_kmer_count_chunked.
 
 (* T5 group-by: per-chunk grouping on change points (with or without the first-equals-last shortcut), joined over
    chunks, gives exactly the maximal runs of equal keys of the whole data — wherever the cuts fall (inside a
-   group, right after a group, single-entry chunks).  Needs: no empty chunk; equal keys contiguous. *)
+   group, right after a group, single-entry chunks, EMPTY chunks: since a68b397 a table without entries has no
+   groups).  Needs only: equal keys contiguous. *)
 Theorem C11_groupby_chunked : forall (fast : bool) (cs : list (list (Z * Z))),
-  Forall (fun c => c <> []) cs -> contiguous (map fst (concat cs)) ->
-  stream_groupby fast cs = runs (concat cs).
-Proof. exact (@groupby_chunked Z). Qed.
+  contiguous (map fst (concat cs)) -> stream_groupby fast cs = runs (concat cs).
+Proof. exact (@groupby_chunked_any Z). Qed.
 Print Assumptions C11_groupby_chunked.
 
 (* sorted keys (the property's wording) are contiguous *)
@@ -45,9 +45,8 @@ Proof. exact sorted_contiguous. Qed.
 Print Assumptions C11_sorted_keys_contiguous.
 
 (* without the shortcut no order assumption is needed at all *)
-Theorem C11_groupby_chunked_slow : forall cs : list (list (Z * Z)),
-  Forall (fun c => c <> []) cs -> stream_groupby false cs = runs (concat cs).
-Proof. exact (@groupby_chunked_slow Z). Qed.
+Theorem C11_groupby_chunked_slow : forall cs : list (list (Z * Z)), stream_groupby false cs = runs (concat cs).
+Proof. exact (@groupby_chunked_slow_any Z). Qed.
 Print Assumptions C11_groupby_chunked_slow.
 
 (* the shortcut on keys that are not contiguous is wrong (outside the property: keys 1,2,1) *)
@@ -168,8 +167,8 @@ Print Assumptions C11_genome_walk.
    under windows, mean over axis 0 of those) — chunked interval streams -> group-by/join -> genome walk -> graph
    pull machine -> concatenate / reduce — returns the in-memory dense meaning of the concatenated data, for every
    genome, every chunking into non-empty chunks, data in genome order.  [pipeline_guard] is True for pileup, mask,
-   pileup sum, histogram, (histogram,sum) and values; the reductions of the values need: mean(axis=0) equal column
-   counts (none with the repaired mean_reduction), sum(axis=0) windows on every chromosome with equal column counts,
+   pileup sum, histogram, (histogram,sum), values and — since the repair of mean_reduction (669f02f) — mean(axis=0);
+   the remaining reductions of the values need: sum(axis=0) windows on every chromosome with equal column counts,
    np.sum a single chromosome — each refuted without its guard. *)
 Theorem C11_pipeline_spec : forall p order sizes (csa csb : list (list (Z * iv))),
   NoDup order -> length order = length sizes -> (0 < length sizes)%nat ->
@@ -180,20 +179,23 @@ Theorem C11_pipeline_spec : forall p order sizes (csa csb : list (list (Z * iv))
 Proof. exact pipeline_spec_current. Qed.
 Print Assumptions C11_pipeline_spec.
 
-Theorem C11_pipeline_spec_fixed : forall p order sizes (csa csb : list (list (Z * iv))),
+(* history: the mean_reduction of the pinned commit (`+` on the column sums) needed equal column counts ... *)
+Theorem C11_pipeline_spec_pinned : forall p order sizes (csa csb : list (list (Z * iv))),
   NoDup order -> length order = length sizes -> (0 < length sizes)%nat ->
   csa <> [] -> csb <> [] -> Forall (fun c => c <> []) csa -> Forall (fun c => c <> []) csb ->
   ordered order (concat csa) -> ordered order (concat csb) ->
-  pipeline_guard_fixed p order sizes (concat csa) (concat csb) ->
-  run_pipeline_with red_mean_fixed p order sizes csa csb
+  pipeline_guard_pinned p order sizes (concat csa) (concat csb) ->
+  run_pipeline_with red_mean p order sizes csa csb
   = Some (spec_pipeline p order sizes (concat csa) (concat csb)).
-Proof. exact pipeline_spec_fixed. Qed.
-Print Assumptions C11_pipeline_spec_fixed.
+Proof. exact pipeline_spec_pinned. Qed.
+Print Assumptions C11_pipeline_spec_pinned.
+
+(* ... and failed without it *)
 
 Theorem C11_pipeline_mean_refuted :
   exists order sizes (csa csb : list (list (Z * iv))),
     NoDup order /\ length order = length sizes /\ ordered order (concat csa) /\ ordered order (concat csb)
-    /\ run_pipeline PValuesMean0 order sizes csa csb = Some GErr
+    /\ run_pipeline_with red_mean PValuesMean0 order sizes csa csb = Some GErr
     /\ spec_pipeline PValuesMean0 order sizes (concat csa) (concat csb) <> GErr.
 Proof. exact pipeline_mean_refuted. Qed.
 Print Assumptions C11_pipeline_mean_refuted.
@@ -263,12 +265,11 @@ Proof. exact expr_scalar_both_orders. Qed.
 Print Assumptions C11_expr_scalar_both_orders.
 
 (* T14 values under STRANDED windows (a row is kept for strand '+' and reversed for every other strand symbol, in both
-   worlds) and their mean over axis 0 (equal-columns guard as for unstranded windows) *)
+   worlds) and their mean over axis 0 *)
 Theorem C11_stranded_spec : forall p order sizes (csa : list (list (Z * iv))) (csw : list (list (Z * swin))),
   NoDup order -> length order = length sizes -> (0 < length sizes)%nat ->
   csa <> [] -> Forall (fun c => c <> []) csa -> Forall (fun c => c <> []) csw ->
   ordered order (concat csa) -> ordered order (concat csw) ->
-  stranded_guard p order sizes (concat csa) (concat csw) ->
   run_stranded p order sizes csa csw = Some (spec_stranded p order sizes (concat csa) (concat csw)).
 Proof. exact stranded_spec_current. Qed.
 Print Assumptions C11_stranded_spec.
@@ -276,7 +277,6 @@ Print Assumptions C11_stranded_spec.
 Theorem C11_gen_extra_link : forall g, gen_wellformed g = true ->
   forallb (fun c => negb (len c =? 0)) (g_w g) = true ->
   ordered (gen_order g) (concat (g_a g)) -> ordered (gen_order g) (concat (g_b g)) -> ordered (gen_order g) (concat (g_w g)) ->
-  (forall p s m, In (p, s, m) (g_sruns g) -> stranded_guard p (gen_order g) (g_sizes g) (concat (g_a g)) (concat (g_w g))) ->
   (forall e q s m, In (e, q, s, m) (g_eruns g) -> exists nodes t, compile e 5 12 = (nodes, ONode t)) ->
   gen_extra_mem_ok g = true -> gen_extra_model_ok g = true -> gen_extra_spec_ok g = true.
 Proof. exact gen_extra_link. Qed.
@@ -342,9 +342,13 @@ Theorem C11_source_tie :
   /\
   (forall o c (x : list Z), gen_ufunc_operand_order = "as_written"%string /\ gen_track_ufunc_operand_order = "as_written"%string /\ apply_ufunc o (fill_args [OConst c; ONode 0%nat] [GL x]) = GL (map (bop_eval o c) x) /\ apply_ufunc o (fill_args [ONode 0%nat; OConst c] [GL x]) = GL (map (fun v => bop_eval o v c) x))
   /\
-  (forall row, gen_stranded_forward_symbol = "+"%string /\ gen_stranded_forward_symbol_mem = "+"%string /\ orient 0 row = row /\ orient 1 row = rev row /\ orient 2 row = rev row).
+  (forall row, gen_stranded_forward_symbol = "+"%string /\ gen_stranded_forward_symbol_mem = "+"%string /\ orient 0 row = row /\ orient 1 row = rev row /\ orient 2 row = rev row)
+  /\
+  (forall (p q : Z * Z) (x y : list (Z * Z)) la lb, sn_padadd (p :: x) (q :: y) = (gen_ac_add (fst p) (fst q), gen_ac_add (snd p) (snd q)) :: sn_padadd x y /\ sn_padadd (p :: x) [] = p :: x /\ sn_padadd [] (q :: y) = q :: y /\ gen_ac_equal_cond la lb = (la =? lb) /\ gen_ac_swap_cond la lb = (la <? lb) /\ gen_ac_prefix_stop la lb = lb /\ gen_ac_tail_start la lb = lb)
+  /\
+  (forall fast (keys data : list Z), gen_gb_empty_test (len keys) = true -> groupby_chunk fast keys data = []).
 Proof.
-  exact (conj b_ce_loop_cond (conj b_ce_size_in (conj b_ce_emit_stop (conj b_ce_carry_start (conj b_ce_size_after (conj b_ce_tail_cond (conj b_cl_loop_cond (conj b_cl_bounds (conj b_cl_after (conj b_sum_and_n (conj b_br_cond (conj b_br_stops (conj b_br_add (conj b_hr_total (conj b_mean_reduction (conj b_add_hist_count (conj b_sum_reduction (conj b_stream_node (conj b_computation_node (conj b_gc_changed (conj b_gc_index (conj b_gb_fast_test (conj b_gb_fast_start (conj b_gb_bounds (conj b_gb_group (conj b_join_fields (conj b_ufunc_operand_order b_stranded_forward))))))))))))))))))))))))))).
+  exact (conj b_ce_loop_cond (conj b_ce_size_in (conj b_ce_emit_stop (conj b_ce_carry_start (conj b_ce_size_after (conj b_ce_tail_cond (conj b_cl_loop_cond (conj b_cl_bounds (conj b_cl_after (conj b_sum_and_n (conj b_br_cond (conj b_br_stops (conj b_br_add (conj b_hr_total (conj b_mean_reduction (conj b_add_hist_count (conj b_sum_reduction (conj b_stream_node (conj b_computation_node (conj b_gc_changed (conj b_gc_index (conj b_gb_fast_test (conj b_gb_fast_start (conj b_gb_bounds (conj b_gb_group (conj b_join_fields (conj b_ufunc_operand_order (conj b_stranded_forward (conj b_add_columns b_gb_empty_test))))))))))))))))))))))))))))).
 Qed.
 Print Assumptions C11_source_tie.
 
@@ -386,12 +390,13 @@ Example C11_nonvacuous_graph :
 Proof. vm_compute. repeat split; try reflexivity. lia. Qed.
 
 (* k = 1 (possible since the window-of-one repair), a streamable function without reduction, and the hypotheses of
-   C11_pipeline_spec: data in genome order with an absent chromosome, windows with equal column counts *)
+   C11_pipeline_spec: data in genome order with an absent chromosome, windows on every chromosome with equal column counts (the guard of sum(axis=0)); the last line is a mean(axis=0)
+   over a genome with a chromosome without windows *)
 Example C11_nonvacuous_phase3 :
   stream_kmer_counts 1 [[[0; 1; 1]]; [[3]; [1; 2]]] = Some [1; 3; 1; 1]
   /\ stream_map spec_revcomp [[[0; 1; 2; 3]; [0]]; [[1; 1; 2; 3; 0]]] = [[[0; 1; 2; 3]; [3]]; [[3; 0; 1; 2; 2]]]
   /\ ordered [0; 1; 2] [(0, (1, 4)); (0, (2, 6)); (2, (0, 3))]
-  /\ pipeline_guard PValuesMean0 [0; 1; 2] [6; 5; 4] [(0, (1, 4)); (0, (2, 6)); (2, (0, 3))] [(0, (1, 3)); (2, (1, 3))]
+  /\ pipeline_guard PValuesSum0 [0; 1] [6; 4] [(0, (1, 4)); (1, (0, 3))] [(0, (1, 3)); (1, (1, 3))]
   /\ run_pipeline PValuesMean0 [0; 1; 2] [6; 5; 4] [[(0, (1, 4))]; [(0, (2, 6)); (2, (0, 3))]] [[(0, (1, 3)); (2, (1, 3))]]
      = Some (GSN [(2, 2); (3, 2)]).
 Proof.
@@ -400,9 +405,9 @@ Proof.
           exists [], [(2, (0, 3))]; repeat split; [constructor|];
           exists [(2, (0, 3))], []; repeat split; repeat constructor|].
   split; [|vm_compute; reflexivity].
-  exists 2%nat. unfold equal_columns. cbn [all_rows combine map].
-  constructor; [right; vm_compute; reflexivity|]. constructor; [left; vm_compute; reflexivity|].
-  constructor; [right; vm_compute; reflexivity|constructor].
+  exists 2%nat. unfold full_columns. cbn [all_rows combine map].
+  constructor; [split; [vm_compute; discriminate|vm_compute; reflexivity]|].
+  constructor; [split; [vm_compute; discriminate|vm_compute; reflexivity]|constructor].
 Qed.
 
 (* operand order matters and is kept: 10 - p versus p - 10 on a two-chromosome pileup; a '.' window is reversed *)
